@@ -286,6 +286,14 @@ def guard(ctx: Any) -> List[Ob]:
 
     qu_f = prog.func(QR + '.add_qu_question_response')
     qme = qu_f.params[0]
+    # (once the record HAS been multicast recently -- the normal state, a responder hears its own announcements -- a copy that
+    # is let through must find the QU routine answering by unicast alone, probe or not: the decision table of C11.ROUTE)
+    from .c11 import qu_answer_table
+
+    for o in qu_answer_table(ctx, R):
+        if 'TTL=True' in str(o.construct):
+            o.statement = 'a duplicated QU query for a recently multicast record is ' + o.statement + ' -- no multicast to double'
+            obs.append(o)
     oc_q, _ = traces(ctx, qu_f, {f'{qme}._is_probe': False, '._has_mcast_within_one_quarter_ttl()': False}, _bucket_eff(qme), loop_bound=1, for_iter=lambda n, e: True)
     qu_multicasts = any('MCAST_NOW' in t for t in oc_q)
     has_exemption = any(isinstance(c, ast.Call) and call_name(c) == 'has_qu_question' for c in walk_local_ordered(f.node))
